@@ -190,7 +190,13 @@ where
                     let mut runner = TestRunner::new(config);
                     let stats = std::cell::RefCell::new(Stats::default());
                     let strategy = make_strategy();
-                    let res = runner.run(&strategy, |case| {
+                    // every fourth worker runs under a subscriber that enables and evaluates every
+                    // log event (the library's behaviour must not depend on the log level)
+                    let traced = w % 4 == 3;
+                    if traced {
+                        stats.borrow_mut().count("worker/under_trace_level_subscriber");
+                    }
+                    let res = maybe_traced(traced, || runner.run(&strategy, |case| {
                         let mut st = stats.borrow_mut();
                         if !st.frozen && stop.load(Ordering::Relaxed) {
                             // another worker failed: wind down quickly
@@ -211,7 +217,7 @@ where
                                 Err(TestCaseError::fail(reason))
                             }
                         }
-                    });
+                    }));
                     let st = stats.into_inner();
                     if let Err(e) = res {
                         match e {
@@ -384,5 +390,46 @@ impl Timer {
     }
     pub fn secs(&self) -> f64 {
         self.0.elapsed().as_secs_f64()
+    }
+}
+
+
+/// A subscriber that enables every tracing event and span and formats every field (and drops
+/// the text): log statements are then evaluated exactly as under `LOGLEVEL=TRACE`.
+pub struct EvalAllSubscriber;
+
+struct FieldSink;
+
+impl tracing::field::Visit for FieldSink {
+    fn record_debug(&mut self, _field: &tracing::field::Field, value: &dyn std::fmt::Debug) {
+        let _ = format!("{:?}", value);
+    }
+}
+
+impl tracing::Subscriber for EvalAllSubscriber {
+    fn enabled(&self, _m: &tracing::Metadata<'_>) -> bool {
+        true
+    }
+    fn new_span(&self, a: &tracing::span::Attributes<'_>) -> tracing::span::Id {
+        a.record(&mut FieldSink);
+        tracing::span::Id::from_u64(1)
+    }
+    fn record(&self, _s: &tracing::span::Id, v: &tracing::span::Record<'_>) {
+        v.record(&mut FieldSink);
+    }
+    fn record_follows_from(&self, _s: &tracing::span::Id, _f: &tracing::span::Id) {}
+    fn event(&self, e: &tracing::Event<'_>) {
+        e.record(&mut FieldSink);
+    }
+    fn enter(&self, _s: &tracing::span::Id) {}
+    fn exit(&self, _s: &tracing::span::Id) {}
+}
+
+/// Run `f` with the evaluate-everything subscriber installed for this thread (or plainly).
+pub fn maybe_traced<T>(traced: bool, f: impl FnOnce() -> T) -> T {
+    if traced {
+        tracing::subscriber::with_default(EvalAllSubscriber, f)
+    } else {
+        f()
     }
 }
